@@ -521,6 +521,11 @@ func filterpath(peer *peer, path, old *table.Path) *table.Path {
 						peer.fsm.logger.Debug("cluster list path attribute has local cluster id, ignore",
 							slog.String("ClusterID", clusterID.String()),
 							slog.Any("Path", path))
+						if !path.IsWithdraw && old != nil {
+							// the route replaces one that may have been
+							// reflected to this client: withdraw that
+							return old.Clone(true)
+						}
 						return nil
 					}
 				}
